@@ -6,6 +6,6 @@ CONSTANTS
   MaxReads = 1000000
   MaxLen = 16
   Aliases = {0}
-  TermInit = "garbage"
+  TermInit = "null"
   Variant = "code"
 CHECK_DEADLOCK FALSE
